@@ -431,7 +431,7 @@ def tiers(tier: str) -> dict[str, Any]:
                 "life_subjects": None}
     return {"seeds": [0, 1, 2, 3], "per_seed": 4, "life_depth": 4,
             "life_sim": 30, "life_sim_depth": 6, "groups": 8,
-            "life_subjects": ["expr", "data", "dict", "call"]}
+            "life_subjects": ["expr", "data", "call"]}
 
 
 def check_families(run: Run, cases: list[dict], kinds: dict[str, dict], T: dict,
